@@ -358,6 +358,26 @@ def run_case(idx, rng, tier, lane):
             counters["pq_exhaustive_sequences"] = n
             sample = {"kind": "pq-exhaustive", "domain": dom, "first": first, "depth": depth, "sequences": n}
         elif idx < n_ex + n_rand:
+            # every insertion order of 6 (quick) / 7 (thorough) distinct scores, a slice per case: push all, optionally
+            # lower the current maximum below everything or raise the minimum above everything, then pop all
+            nperm = 6 if tier == "quick" else 7
+            perms = itertools.permutations(range(nperm))
+            j = idx - n_ex
+            for pi, perm in enumerate(perms):
+                if pi % n_rand != j:
+                    continue
+                for variant in (0, 1, 2):
+                    mo = PQModel(PriorityQueue, counters)
+                    for item, sc in enumerate(perm):
+                        mo.push(sc * 10, item)
+                    if variant == 1:
+                        mo.change(perm.index(nperm - 1), -5)
+                    elif variant == 2:
+                        mo.change(perm.index(0), 1000)
+                    mo.check_lookups(range(nperm))
+                    while mo.m:
+                        mo.pop()
+                    counters["pq_permutation_histories"] = counters.get("pq_permutation_histories", 0) + 1
             for rep in range(40 if tier == "quick" else 60):
                 ops = _pq_random(PriorityQueue, rng, counters)
                 counters["pq_random_histories"] = counters.get("pq_random_histories", 0) + 1
